@@ -17,7 +17,7 @@
   meanwhile the contract itself is evaluated on the implementation for every generated case (oracle) and the
   implementation is compared with the model step by step.
 -/
-import Lc3V.Props.C10
+import Lc3V.Lemmas.C10Core
 import Lc3V.Gen.OsImage
 namespace Lc3V.C11
 open Lc3V SimInstr
